@@ -699,9 +699,17 @@ def _check_bitfield(case):
     _LAW = {"bf_from_bits": "bf_read", "bf_from_bits_type": "bf_read_type", "bf_to_bits": "bf_vector",
             "bf_roundtrip": "bf_vector"}
 
+    state = {"b": None, "bad": {"P": set(), "T": set()}, "seen": {"P": set(), "T": set()}}
+
     def finding(law, level, ftype, nested, detail):
         # root cause = (read / write / whole-vector path, level, directly declared or inside a sub-bitfield)
+        if level in state["bad"]:
+            state["bad"][level].add(state["b"])
         out.add({"law": _LAW.get(law, law), "level": level, "nested": nested}, f"[{law}, field kind {ftype}] " + detail)
+
+    def s_level(b):
+        agree = "".join(lv for lv in ("P", "T") if b in state["seen"][lv] and b not in state["bad"][lv])
+        return "S!=" + agree if agree else "S"
 
     def cmp_fields(level, law, objs, b, allow_q=False):
         for obj, (path, t, hi, lo) in zip(objs, leaves):
@@ -748,6 +756,8 @@ def _check_bitfield(case):
                 return False, None
 
         for b in pats:
+            state["b"] = b
+            state["seen"]["P"].add(b)
             ok, x = step("construct", mod.T, _bits(W, b))
             if not ok:
                 break
@@ -788,6 +798,7 @@ def _check_bitfield(case):
         wvals = case["wvals"]
         nwrite = 0
         for bi, b in builtins.enumerate(wpats):
+            state["b"] = b
             for li, (path, t, hi, lo) in builtins.enumerate(leaves):
                 fw = hi - lo + 1
                 cur = L.field_read(b, hi, lo)
@@ -866,6 +877,8 @@ def _check_bitfield(case):
                     nonconst.add(what)
 
             for (i, n_t, tb, fx, fy, tby), b in zip(mod.RES, sel):
+                state["b"] = b
+                state["seen"]["T"].add(b)
                 if n_t != W:
                     finding("count", "T", "vec", False, f"count_bits = {n_t}, declared width {W}")
                 guarded("fields", cmp_fields, "T", "bf_read", fx, b, allow_q=False)
@@ -880,16 +893,60 @@ def _check_bitfield(case):
         elif t_ok:
             out.labels.append("T_probe_incomplete")
 
-        # ---- level S, structural
+        # ---- level S: field reads r<k> of input i, field writes w<k> = copy of i with field k := v<k>
         try:
             vhdl = compile_entity(mod.Sim)
-            need = ["o1"] + [f"r{n}" for n in range(len(leaves))] + [f"w{n}" for n in range(len(leaves))]
-            missing = [p for p in need if not re.search(rf"\b{p}\s*:\s*out\b", vhdl)]
-            if missing:
-                out.labels.append("S_ports_missing")
-            out.labels.append("S_compiled")
         except Rejected as r:
+            vhdl = None
             out.labels.append(f"S_rejected:{r.exc_type}")
+        if vhdl is not None:
+            out.labels.append("S_compiled")
+            zero = {"i": 0}
+            zero.update({f"v{k}": 0 for k in range(len(leaves))})
+            sim = _open_sim(out, vhdl, zero, None, "S")
+            if sim is not None:
+                ns = 0
+                spats = pats if len(pats) <= 256 else pats[-256:]
+                for bi, b in builtins.enumerate(spats):
+                    state["b"] = b
+                    lvl = s_level(b)
+                    for rnd in (0, 1):
+                        vals = {}
+                        for k, (path, t, hi, lo) in builtins.enumerate(leaves):
+                            fw = hi - lo + 1
+                            m = (1 << fw) - 1
+                            vals[k] = (L.field_read(b, hi, lo) ^ m) if rnd == 0 else (wvals[(bi + k) % len(wvals)] & m)
+                        try:
+                            sim.poke(i=b, **{f"v{k}": v for k, v in vals.items()})
+                        except _sim_error() as e:
+                            finding("sim_error", lvl, "vec", False, f"vector {b:0{W}b}: VHDL run-time error {e}")
+                            sim = None
+                            break
+                        ns += 1
+                        o1 = sim.get("o1")
+                        if o1 != b:
+                            finding("bf_roundtrip", lvl, "vec", False,
+                                    f"vector {b:0{W}b}: simulated to_bits(from_bits[BF](i)) = {sim.get_str('o1')}")
+                        for k, (path, t, hi, lo) in builtins.enumerate(leaves):
+                            fw = hi - lo + 1
+                            r = sim.get(f"r{k}")
+                            wv = sim.get(f"w{k}")
+                            cnt("S_field_checks")
+                            exp_r = L.field_read(b, hi, lo)
+                            exp_w = L.field_write(b, hi, lo, vals[k])
+                            if r is None or int(r) % (1 << fw) != exp_r:
+                                finding("bf_read", lvl, t, len(path) > 1,
+                                        f"vector {b:0{W}b}: simulated field {'.'.join(path)} [{hi}:{lo}] reads "
+                                        f"{sim.get_str(f'r{k}')}, expected {exp_r:0{fw}b}")
+                            if wv is None or wv != exp_w:
+                                finding("bf_write", lvl, t, len(path) > 1,
+                                        f"vector {b:0{W}b}, field {'.'.join(path)} [{hi}:{lo}] @= {vals[k]:0{fw}b}: simulated "
+                                        f"vector becomes {sim.get_str(f'w{k}')}, expected {exp_w:0{W}b}")
+                    if sim is None:
+                        break
+                cnt("S_pokes", ns)
+                if ns:
+                    out.labels.append("S_ok")
 
         out.nontrivial = len(leaves) >= 2 and any(lo > 0 and (t != "bit" or len(p) > 1) for p, t, hi, lo in leaves)
         return out
